@@ -1,0 +1,20 @@
+//go:build verif
+
+package mutator
+
+import (
+	"io"
+
+	"github.com/ngicks/mockable"
+)
+
+// VerifSetClock replaces the package clock used by ScheduleAtNow. Verification builds only.
+func VerifSetClock(c mockable.Clock) {
+	clock = c
+}
+
+// VerifSetRandomReader replaces the random source used by RandomizeScheduledAt.
+// Verification builds only.
+func VerifSetRandomReader(r io.Reader) {
+	randomReader = r
+}
